@@ -70,4 +70,31 @@ theorem mass_update_bwd_scalar (mass sgr : List ℝ) (d : ℝ) (hm : mass ≠ []
   simp only [Kern.mass_update_bwd_scalar_dx, Vec.setInit, Vec.cumtrapz, Vec.bcast, Vec.last0, trapTerms_eq, cumsumFrom_eq,
     burn_fun, massBwd, lastD, List.map_reverse, List.reverse_replicate]
 
+/-! ## one pass of the loop of each iteration driver (`BADA/model.py`, loop mode; the inherited mass updates inlined) -/
+
+/-- the clamp `np.min((want, mtow))` is the model's `takeoffMass` -/
+theorem smin_takeoff (want mtow : ℝ) : smin want mtow = (if mtow < want then mtow else want) := rfl
+
+/-- one pass of each driver loop, given the specific ground range `sgr` that pass computes, is the model's step function applied to
+    the burn vector `burnPerMetre ∘ sgr` (for every non-empty mass array and every segment-length array) -/
+theorem driver_steps (mass sgr dx : List ℝ) (mtow oew mpl lf rf : ℝ) (hm : mass ≠ []) :
+    Kern.driver_const_initial_step mass sgr dx = fwdStep (fun _ => sgr.map burnPerMetre) dx mass ∧
+    Kern.driver_const_final_step mass sgr dx = bwdStep (fun _ => sgr.map burnPerMetre) dx mass ∧
+    Kern.driver_fuel_dep_frac_step mass sgr dx mtow oew mpl lf rf
+      = fuelDepStep (fun _ => sgr.map burnPerMetre) dx true mtow oew mpl lf rf mass ∧
+    Kern.driver_fuel_dep_value_step mass sgr dx mtow oew mpl lf rf
+      = fuelDepStep (fun _ => sgr.map burnPerMetre) dx false mtow oew mpl lf rf mass := by
+  obtain ⟨m0, ms, rfl⟩ := List.exists_cons_of_ne_nil hm
+  refine ⟨?_, ?_, ?_, ?_⟩
+  · simp only [Kern.driver_const_initial_step, fwdStep, Vec.setTail, Vec.cumtrapz, Vec.head0, trapTerms_eq, cumsumFrom_eq, burn_fun,
+      massFwd, headD, List.headD_cons]
+  · simp only [Kern.driver_const_final_step, bwdStep, Vec.setInit, Vec.cumtrapz, Vec.last0, trapTerms_eq, cumsumFrom_eq, burn_fun,
+      massBwd, lastD, List.map_reverse]
+  · simp only [Kern.driver_fuel_dep_frac_step, Vec.setTail, Vec.setHead, Vec.cumtrapz, Vec.head0, Vec.last0, trapTerms_eq,
+      cumsumFrom_eq, burn_fun, List.headD_cons]
+    simp only [fuelDepStep, takeoffMass, massFwd, headD, lastD, List.headD_cons, smin_takeoff, if_true]
+  · simp only [Kern.driver_fuel_dep_value_step, Vec.setTail, Vec.setHead, Vec.cumtrapz, Vec.head0, Vec.last0, trapTerms_eq,
+      cumsumFrom_eq, burn_fun, List.headD_cons]
+    simp only [fuelDepStep, takeoffMass, massFwd, headD, lastD, List.headD_cons, smin_takeoff, Bool.false_eq_true, if_false]
+
 end KernelBridge4
